@@ -1010,7 +1010,11 @@ func (h *handset) display(m *lsMsg, parts []airPart, payloads [][]byte) {
 					return
 				}
 				if lerr != nil || lt != t {
-					r.Fail("C14", "part-decodes-differently", m.proto+"/"+famName[f], "library-decoder", "part %d of %d: the library's content decoder gives %q (%v), the reference decoder %q", i+1, len(payloads), trunc(lt, 24), lerr, trunc(t, 24))
+					// C06 too: "decoding the parts in order under the reported data coding" is what a gateway built on the
+					// library does with this very function
+					for _, prop := range []string{"C14", "C06"} {
+						r.Fail(prop, "part-decodes-differently", m.proto+"/"+famName[f], "library-decoder", "part %d of %d: the library's content decoder gives %q (%v), the reference decoder %q", i+1, len(payloads), trunc(lt, 24), lerr, trunc(t, 24))
+					}
 					return
 				}
 			}
